@@ -254,6 +254,157 @@ def pipeline_templates(repo, rng, n):
     return out
 
 
+# ---------------------------------------------------------------------------------------------
+# boundary families of the other properties' input spaces (a panic there is a C01 violation too)
+# ---------------------------------------------------------------------------------------------
+WS = ["\t", "\n", "\x0b", "\x0c", "\r", " ", "\x85", "\xa0", "\u1680", "\u2000", "\u2001", "\u2002", "\u2003", "\u2004", "\u2005", "\u2006", "\u2007", "\u2008",
+      "\u2009", "\u200a", "\u2028", "\u2029", "\u202f", "\u205f", "\u3000"]              # every Unicode White_Space character
+ODDTEXT = ["\r\n", "\u00e9", "\u20ac", "a\u0301", "\U0001d11e", "\ufeff", "\x00", "\u200b", "\u180e", "\ud7ff", "\U0010ffff", "\x1c", "\x1f", "-", "+", "{", "#"]
+I63 = ["9223372036854775807", "-9223372036854775808", "9223372036854775808", "-9223372036854775809", "18446744073709551616", "170141183460469231731687303715884105727"]
+
+
+def slice_family(thorough):
+    """every container kind x start, stop in {omitted, -len-2 .. len+2, +-2^63 boundaries} x step in {omitted, +-1, +-2,
+    +-len, 0, boundaries}; subscripts with the same indices"""
+    conts = [("'abc'", 3), ("'a\u00e9\u20ac\U0001d11e'", 4), ("''", 0), ("[1,2,3]", 3), ("[]", 0), ("(1,2,3)", 3), ("()", 0), ("range(4)", 4), ("range(0)", 0),
+             ("(range(10)|list)", 10), ("{'a':1,'b':2}", 2), ("u", 0), ("none", 0), ("x.a", 2), ("7", 0), ("(l|map('string'))", 1), ("(m|batch(1))", 1), ("('abc'|reverse)", 3)]
+    out = []
+    for c, n in conts:
+        near = [str(i) for i in range(-n - 2, n + 3)]
+        bounds = [""] + (near if n <= 4 or thorough else [str(i) for i in (-n - 2, -n - 1, -n, -n + 1, -1, 0, 1, n - 1, n, n + 1, n + 2)]) + I63[:4]
+        steps = ["", "1", "-1", "2", "-2", "0"] + ([str(n), str(-n)] if n > 2 else []) + [str(n + 1), str(-n - 1), I63[0], I63[1], "-9223372036854775807"]
+        for a in bounds:
+            for b in bounds:
+                for st in steps:
+                    out.append("{{ %s[%s:%s%s] }}" % (c, a, b, (":" + st) if st or (len(out) % 7 == 0) else ""))
+        for a in near + I63 + ["1.0", "-1.5", "'a'", "none", "true", "[]", "u"]:
+            out.append("{{ %s[%s] }}{{ %s[%s] is defined }}" % (c, a, c, a))
+            if a.lstrip("-").isdigit() and not a.startswith("-"):
+                out.append("{{ %s.%s }}" % (c, a))
+        out.append("{%% for i in %s[::-1] %%}{{ i }}{%% endfor %%}{{ %s[%s|length::-1] }}{{ %s[%s|length + 1:0:-2] }}" % (c, c, c, c, c))
+    return out
+
+
+def lexer_family(thorough):
+    """every tag kind x whitespace-control marker on each side x text before / after the tag from {every Unicode
+    White_Space char, CR LF, multi-byte letters, combining marks, 4-byte chars, BOM, NUL, ..} x whitespace settings;
+    entries are (template, extra request fields)"""
+    full = WS + ODDTEXT
+    small = ["", " ", "\n", "\xa0x", " \u3000", "\n\u2003\u2003"]
+    pairs = [(b, a) for b in full for a in small] + [(b, a) for b in small for a in full]
+    tags = [lambda l, r: "{{%s m %s}}" % (l, r), lambda l, r: "{%%%s if a %s%%}y{%%%s endif %s%%}" % (l, r, l, r), lambda l, r: "{%%%s set q = 1 %s%%}" % (l, r),
+            lambda l, r: "{#%s c %s#}" % (l, r), lambda l, r: "{%%%s raw %s%%}{{ z{%%%s endraw %s%%}" % (l, r, l, r),
+            lambda l, r: "{%%%s for i in l %s%%}{{%s i %s}}{%%%s endfor %s%%}" % (l, r, l, r, l, r)]
+    marks = ["", "-", "+"]
+    settings = [None, {"trim_blocks": True}, {"lstrip_blocks": True}, {"trim_blocks": True, "lstrip_blocks": True, "keep_trailing_newline": True}]
+    out = []
+    k = 0
+    for ti, tag in enumerate(tags):
+        for l in marks:
+            for r in marks:
+                for b, a in pairs:
+                    k += 1
+                    # quick: each (tag, markers, text pair) under one of the settings in turn; thorough: all of them
+                    for st in (settings if thorough else [settings[k % 4]]):
+                        t = "p" + b + tag(l, r) + a + "q" + (b if k % 3 == 0 else "")
+                        out.append((t, {"settings": st} if st else {}))
+    return out
+
+
+def line_syntax_family():
+    """line statements / line comments (custom syntax; run through the c01 bin) with the same odd text around them"""
+    full = WS + ODDTEXT
+    out = []
+    sy = {"line_statement_prefix": "#", "line_comment_prefix": "##"}
+    for w in full:
+        for body in ("# if a", "# for i in l", "## c", "#- if a", "# if a -", "#"):
+            for st in (None, {"trim_blocks": True, "lstrip_blocks": True}):
+                for t in ("p\n%s%s%s\nq\n# end%s\n" % (w, body, w, "if" if "if" in body else "for"), "%s%s\n{{ m }}%s## t%s\n# endif" % (w, body, w, w),
+                          "p%s\n%s\n%sq" % (w, body, w), "{{ m -}}%s\n%s %s\n# endfor%s" % (w, body, w, w)):
+                    out.append((t, {"syntax": sy, "settings": st or {}}))
+    for sy2 in ({"block": ["\u00ab", "\u00bb"], "variable": ["\u2039", "\u203a"], "comment": ["\u2026", "\u2026"]}, {"block": ["<%", "%>"], "variable": ["${", "}"], "comment": ["<!--", "-->"]},
+                {"line_statement_prefix": "\u00a7", "line_comment_prefix": "\u00a7\u00a7"}):
+        b, e = sy2.get("block", ["{%", "%}"])
+        v, ve = sy2.get("variable", ["{{", "}}"])
+        for w in full:
+            for mk in ("", "-", "+"):
+                out.append(("p%s%s%s if a %s%s%s%s%s m %s%s%s%s endif %s" % (w, b, mk, mk, e, w, v, mk, mk, ve, w, b, e), {"syntax": sy2, "settings": {}}))
+                out.append(("\u00a7 if a%s\n%sx\n\u00a7 endif" % (w, w), {"syntax": sy2, "settings": {"trim_blocks": True}}))
+    return out
+
+
+def arith_family():
+    nums = ["0", "1", "-1", "2", "3", "-0.0", "0.5", "1e19", "-1e19", "9007199254740992", "9007199254740993", "9223372036854775807", "-9223372036854775808", "9223372036854775808",
+            "18446744073709551615", "18446744073709551616", "170141183460469231731687303715884105727", "(-170141183460469231731687303715884105727 - 1)",
+            "170141183460469231731687303715884105728", "340282366920938463463374607431768211455", "(1e308 * 10)", "(-1e308 * 10)", "((1e308 * 10) - (1e308 * 10))", "1e-320", "127", "64"]
+    out = []
+    for a in nums:
+        for b in nums:
+            for op in ["+", "-", "*", "/", "//", "%", "**", "<", "=="]:
+                out.append("{{ %s %s %s }}" % (a, op, b))
+        out.append("{{ -%s }}{{ %s|abs }}{{ %s|int }}{{ %s|float }}{{ %s|round }}{{ %s|round(2, 'floor') }}{{ %s|string }}{{ %s|tojson }}{{ %s|bool }}{{ [%s]|sum }}{{ [%s, 1]|min }}" % ((a,) * 11))
+        for f in ("round", "int", "float", "abs", "filesizeformat", "format"):
+            for b in nums[:18]:
+                out.append("{{ %s|%s(%s) }}" % (a, f, b))
+        out.append("{{ range(%s)|length }}{{ 'a' * %s }}{{ [1] * %s }}{{ 'abc'[%s] }}{{ 'abc'|center(%s) }}{{ '%%s'|format(%s) }}" % ((a,) * 6))
+    return out
+
+
+ODD = ["{1:2}", "{(1,2):3}", "{none:1}", "{1.5:2}", "{true:1,1:2}", "{[1]:2}", "{u:1}", "(1e308 * 10)", "(-1e308 * 10)", "((1e308 * 10) - (1e308 * 10))", "-0.0",
+       "340282366920938463463374607431768211455", "[none,u,true]", "{'a':u}", "namespace(a=1)", "namespace", "range", "dict", "cycler(1,2)", "joiner()", "x", "'\\x00'",
+       "'\ud7ff\U0010ffff'", "('\U0001d11e' * 3)", "(2|chain(2))", "[2|chain(2)|first]", "{'k': 2|chain(2)|first}", "(2|chain(2)|first)", "(l|map('nosuchfilter'))", "(l|map(attribute='a.b.c'))",
+       "([1]|map('int')|map('string'))", "(x|items)", "(x|dictsort)", "[[[[[[[[[[[[[[[[[[[[1]]]]]]]]]]]]]]]]]]]]", "{'<':'>'}", "'\\'</script>'", "((1,2),(3,4))", "loop", "self", "debug"]
+
+
+def odd_values_family(repo):
+    """serialization / formatting / comparison of odd values through every filter and test"""
+    filters, tests, funcs = builtin_names(repo)
+    out = []
+    for v in ODD:
+        for f in filters:
+            out.append("{{ %s|%s }}" % (v, f))
+        for t in tests:
+            out.append("{{ %s is %s }}" % (v, t))
+        out.append("{{ %s }}{{ %s|tojson(2) }}{{ %s|urlencode }}{{ %s|pprint }}{{ [%s, %s]|sort }}{{ %s == %s }}{{ {%s: 1} }}{{ %s in [%s] }}{%% for i in %s %%}{{ i }}{%% endfor %%}"
+                   % ((v,) * 12))
+        out.append("{%% for i in [1] %%}{{ %s|string ~ loop|string }}{{ loop|tojson }}{{ [loop, %s]|sort }}{%% endfor %%}{{ '%%s %%r'|format(%s, %s) }}{{ debug(%s) }}" % ((v,) * 5))
+    return out
+
+
+def multi_template_family():
+    """deep / cyclic inheritance, include and import shapes; fuel and recursion limits at their boundaries
+    (entries are (main template, extra request fields))"""
+    out = []
+    for d in (1, 10, 50, 100, 200, 500, 2000):
+        ext = {"t%d" % i: "{%% extends 't%d' %%}{%% block b %%}%d{{ super() }}{%% endblock %%}" % (i + 1, i) for i in range(d)}
+        ext["t%d" % d] = "[{% block b %}x{% endblock %}]"
+        out.append(("{% extends 't0' %}{% block b %}m{{ super() }}{% endblock %}", {"templates": ext}))
+        inc = {"t%d" % i: "%d{%% include 't%d' %%}" % (i, i + 1) for i in range(d)}
+        inc["t%d" % d] = "x"
+        out.append(("{% include 't0' %}", {"templates": inc}))
+        imp = {"t%d" % i: "{%% import 't%d' as n %%}{%% macro f() %%}%d{{ n.f() }}{%% endmacro %%}" % (i + 1, i) for i in range(d)}
+        imp["t%d" % d] = "{% macro f() %}x{% endmacro %}"
+        out.append(("{% import 't0' as n %}{{ n.f() }}", {"templates": imp}))
+        cyc = {"t%d" % i: "{%% extends 't%d' %%}" % ((i + 1) % d) for i in range(d)}
+        out.append(("{% extends 't0' %}", {"templates": cyc}))
+        cyc2 = {"t%d" % i: "{%% include 't%d' %%}" % ((i + 1) % d) for i in range(d)}
+        out.append(("{% include 't0' %}", {"templates": cyc2}))
+        out.append(("{% extends 't0' %}" * 2, {"templates": ext}))
+        out.append(("{% for i in range(3) %}{% include ['nope', 't0'] ignore missing %}{% endfor %}", {"templates": inc}))
+    bodies = ["{{ m }}", "{% for i in range(50) %}{{ i }}{% endfor %}", "{% macro f(n) %}{{ n }}{% endmacro %}{{ f(1) }}{% include 'other.txt' %}", "{% set q %}{{ m|upper }}{% endset %}{{ q }}",
+              "{% for i in [[1,[2]]] recursive %}{{ loop(i) if i is iterable else i }}{% endfor %}", "{% block b %}{{ self.b is defined }}{% endblock %}"]
+    for b in bodies:
+        for fuel in ("0", "1", "2", "7", "9223372036854775806", "9223372036854775807", "9223372036854775808", "18446744073709551614", "18446744073709551615"):
+            out.append((b, {"fuel": fuel}))
+            out.append((b, {"fuel": fuel, "ops": ["fuel_levels", "render"]}))
+        # only templates that do not recurse without bound: a huge limit is the embedder's own choice of stack
+        for lim in (0, 1, 2, 5, 2 ** 31, 2 ** 32 - 1, 2 ** 32, 2 ** 63 - 1, 2 ** 63, 2 ** 64 - 1):
+            out.append((b, {"recursion_limit": lim}))
+        for ub in ("strict", "semistrict", "chainable"):
+            out.append((b + "{{ nope.a.b }}{{ nope[0] }}{{ nope|length }}{% for i in nope %}{% endfor %}", {"undefined": ub}))
+    return out
+
+
 def mutated_fixtures(repo, rng, n):
     srcs = []
     for f in sorted(glob.glob(os.path.join(repo, "minijinja/tests/inputs/*.txt")) + glob.glob(os.path.join(repo, "minijinja/tests/parser-inputs/*.txt"))
@@ -265,7 +416,8 @@ def mutated_fixtures(repo, rng, n):
         parts = t.split("\n---\n", 1)
         srcs.append(parts[1] if len(parts) == 2 else t)
     toks = ["{{", "}}", "{%", "%}", "{#", "#}", "-%}", "{%-", "|", "(", ")", "[", "]", "'", '"', "\\", "\n", "\r", "€", "\x00", " if ", " else ", " for ", " in ",
-            "endfor", "endif", "block", "macro", "call", "set", "9223372036854775808", "**", "//", "~", "loop", "super()", "raw", "endraw", "퟿", "\U0001d11e"]
+            "endfor", "endif", "block", "macro", "call", "set", "9223372036854775808", "**", "//", "~", "loop", "super()", "raw", "endraw", "퟿", "\U0001d11e",
+            "-%}", "-}}", "-#}", "{{-", "{#-", "+%}", "{%+", "-%}\xa0", "-}}\u3000", "-#}\u2003", "\xa0{%-", "[::-1]", "[5::-1]", "[:-9223372036854775808:-1]"] + WS + ODDTEXT
     out = []
     if not srcs:
         return out
@@ -284,7 +436,7 @@ def mutated_fixtures(repo, rng, n):
                 a, b = min(p, q), max(p, q)
                 s = s[:a] + s[a:b] * 2 + s[b:]
             else:
-                s = s[:p] + chr(rng.choice([0, 9, 10, 13, 32, 123, 125, 37, 35, 45, 43, 8364, 65533])) + s[p:]
+                s = s[:p] + chr(rng.choice([0, 9, 10, 13, 32, 123, 125, 37, 35, 45, 43, 8364, 65533, 0x85, 0xa0, 0x2003, 0x2028, 0x3000, 0xfeff, 0x301, 0x1d11e])) + s[p:]
         out.append(s)
     return out
 
